@@ -28,6 +28,8 @@ pub struct Prepared {
     pub glr: Option<(Dump, Dyn)>,
     pub lr: Vec<LrSide>,
     pub lex: bool,
+    /// 0 = default whitespace skipping; 1..6 = user Layout rule family (c14::layout_rules)
+    pub family: u8,
 }
 
 fn tables_equal(a: &Dump, b: &Dump) -> bool {
@@ -43,8 +45,8 @@ pub fn conflict_free(d: &Dump) -> bool {
 
 /// Compile the grammar every way the family needs. Violations of the "in scope
 /// ⇒ compiles, nothing resolved" premise are reported under C01.
-pub fn prepare(g: &AG, wd: &Workdir, rep: &mut Rep, prop: &str) -> Option<Prepared> {
-    let text = g.text();
+pub fn prepare(g: &AG, wd: &Workdir, rep: &mut Rep, prop: &str, family: u8) -> Option<Prepared> {
+    let text = if family > 0 { crate::c14::grammar_text(g, family) } else { g.text() };
     let cyclic = g.cyclic();
     let glr_scope = g.glr_scope();
     let agj = g.to_json();
@@ -96,7 +98,7 @@ pub fn prepare(g: &AG, wd: &Workdir, rep: &mut Rep, prop: &str) -> Option<Prepar
             }
         }
     }
-    Some(Prepared { g: g.clone(), text, cyclic, glr_scope, glr, lr, lex: false })
+    Some(Prepared { g: g.clone(), text, cyclic, glr_scope, glr, lr, lex: false, family })
 }
 
 fn err_info(e: &rustemo::Error) -> (Option<rustemo::SourceSpan>, String) {
@@ -159,7 +161,8 @@ pub fn judge_input(p: &Prepared, ic: &InputCase, rep: &mut Rep, prop: &str) {
         None => ic.input.len(),
     };
     let agj = p.g.to_json();
-    let case = |extra: Value| json!({"grammar": p.text, "ag": agj, "input": ic.input, "tokens": ic.w, "extra": extra});
+    let spans: Vec<Vec<usize>> = ic.toks.iter().map(|t| vec![t.1, t.2]).collect();
+    let case = |extra: Value| json!({"grammar": p.text, "ag": agj, "family": p.family, "input": ic.input, "tokens": ic.w, "spans": spans, "extra": extra});
     let sig = |kind: &str| format!("{}:{}:{}", kind, fnv(&p.text), fnv(&ic.input));
     rep.count("evaluations", 1);
     crate::rep::watchdog::set(|| json!({"grammar": p.text, "input": ic.input}).to_string());
@@ -361,7 +364,8 @@ pub fn judge_input(p: &Prepared, ic: &InputCase, rep: &mut Rep, prop: &str) {
 fn judge_forest<'i>(p: &Prepared, dg: &Dump, f: &rustemo::Forest<'i, str, dynp::Pk, dynp::Tk>, en: &mut Enum, ic: &InputCase, rep: &mut Rep) {
     let m = Map::new(dg, &p.g);
     let agj = p.g.to_json();
-    let case = |extra: Value| json!({"grammar": p.text, "ag": agj, "input": ic.input, "tokens": ic.w, "lex": p.lex, "extra": extra});
+    let spans: Vec<Vec<usize>> = ic.toks.iter().map(|t| vec![t.1, t.2]).collect();
+    let case = |extra: Value| json!({"grammar": p.text, "ag": agj, "family": p.family, "input": ic.input, "tokens": ic.w, "spans": spans, "lex": p.lex, "extra": extra});
     let sig = |kind: &str| format!("{}:{}:{}", kind, fnv(&p.text), fnv(&ic.input));
     let mut exp: Vec<T> = en.trees_all().iter().map(|t| t.norm()).collect();
     exp.sort();
@@ -548,7 +552,7 @@ pub fn run_lex_grammar(g: &AG, wd: &Workdir, rep: &mut Rep, maxlen: usize, only:
     };
     let Ok(dy) = Dyn::new(&d, spec.dyn_cfg()) else { return };
     rep.count("grammars_in_scope", 1);
-    let p = Prepared { g: g.clone(), text, cyclic: false, glr_scope: true, glr: Some((d, dy)), lr: vec![], lex: true };
+    let p = Prepared { g: g.clone(), text, cyclic: false, glr_scope: true, glr: Some((d, dy)), lr: vec![], lex: true, family: 0 };
     match only {
         Some(i) => judge_lex_input(&p, i, rep),
         None => {
@@ -583,7 +587,7 @@ fn judge_into_iter(p: &Prepared, ic: &InputCase, rep: &mut Rep) {
     });
     rep.count("forest_enumerations", 1);
     let sig = format!("into_iter:{}:{}", fnv(&p.text), fnv(&ic.input));
-    let case = json!({"grammar": p.text, "ag": p.g.to_json(), "input": ic.input, "tokens": ic.w});
+    let case = json!({"grammar": p.text, "ag": p.g.to_json(), "family": p.family, "input": ic.input, "tokens": ic.w, "spans": ic.toks.iter().map(|t| vec![t.1, t.2]).collect::<Vec<_>>()});
     match r {
         Ok(Some(got)) => {
             let mut got: Vec<T> = match got.into_iter().collect::<Result<Vec<_>, _>>() {
@@ -615,9 +619,24 @@ fn in_scope_for(p: &Prepared, prop: &str) -> bool {
     }
 }
 
-pub fn run_grammar(g: &AG, name: &str, wd: &Workdir, rep: &mut Rep, prop: &str, maxlen: usize, rng: &mut crate::rng::Rng) {
+pub fn run_grammar(g: &AG, name: &str, wd: &Workdir, rep: &mut Rep, prop: &str, maxlen: usize, rng: &mut crate::rng::Rng, family: u8) {
     rep.count("grammars_generated", 1);
-    let Some(p) = prepare(g, wd, rep, prop) else { return };
+    let Some(p) = prepare(g, wd, rep, prop, family) else { return };
+    if family > 0 {
+        rep.count("grammars_with_layout_rule", 1);
+    }
+    // hostile rendering: whitespace soup, or (Layout families) comments / whitespace of the family, also none between tokens
+    let hostile = |g: &AG, w: &[usize], rng: &mut crate::rng::Rng| {
+        if family == 0 {
+            return render_ws(g, w, rng);
+        }
+        let mut r2 = rng.clone();
+        let lead = crate::c14::gen_layout(&mut r2, family, true, false);
+        let trail = crate::c14::gen_layout(&mut r2, family, true, true);
+        let res = render(g, w, |_| crate::c14::gen_layout(&mut r2, family, true, false), &lead, &trail);
+        *rng = r2;
+        res
+    };
     if !in_scope_for(&p, prop) {
         rep.count("grammars_out_of_scope", 1);
         return;
@@ -641,8 +660,8 @@ pub fn run_grammar(g: &AG, name: &str, wd: &Workdir, rep: &mut Rep, prop: &str, 
         if prop == "C03" && m && wi % 3 == 0 {
             judge_into_iter(&p, &ic, rep);
         }
-        if (prop == "C12" || prop == "C13") && rng.chance(0.25) {
-            let (input, toks) = render_ws(g, &w, rng);
+        if (prop == "C12" || prop == "C13" || (family > 0 && prop == "C07")) && rng.chance(if family > 0 { 0.5 } else { 0.25 }) {
+            let (input, toks) = hostile(g, &w, rng);
             judge_input(&p, &InputCase { w, input, toks }, rep, prop);
         }
     }
@@ -663,7 +682,7 @@ pub fn run_grammar(g: &AG, name: &str, wd: &Workdir, rep: &mut Rep, prop: &str, 
                         _ => w[i] = rng.below(g.terms.len()),
                     }
                 }
-                let (input, toks) = render_ws(g, &w, rng);
+                let (input, toks) = hostile(g, &w, rng);
                 let (m, _) = earley(g, &w);
                 if m {
                     acc += 1
@@ -695,7 +714,7 @@ pub fn main(a: &Args) {
     let mut rng = a.rng(1);
     if a.shard == 0 {
         for (name, g) in corpus() {
-            run_grammar(&g, &name, &wd, &mut rep, prop, maxlen, &mut rng);
+            run_grammar(&g, &name, &wd, &mut rep, prop, maxlen, &mut rng, 0);
         }
     }
     let opts = BnfOpts::default();
@@ -720,7 +739,9 @@ pub fn main(a: &Args) {
             unicodeify(&mut g, &mut rng);
             rep.count("grammars_with_non_ascii_multiline_literals", 1);
         }
-        run_grammar(&g, "random_bnf", &wd, &mut rep, prop, maxlen, &mut rng);
+        // a quarter of the C07/C12/C13 grammars get a user Layout rule (whitespace / comments / nested comments, six shapes)
+        let family = if (prop == "C13" || prop == "C12" || prop == "C07") && rng.chance(0.25) { rng.range(1, 6) as u8 } else { 0 };
+        run_grammar(&g, "random_bnf", &wd, &mut rep, prop, maxlen, &mut rng, family);
     }
     rep.finish();
 }
@@ -734,17 +755,23 @@ fn replay(path: &str, wd: &Workdir, rep: &mut Rep, prop: &str) {
         run_lex_grammar(&g, wd, rep, 5, case["input"].as_str());
         return;
     }
-    let p = prepare(&g, wd, rep, prop).unwrap();
+    let p = prepare(&g, wd, rep, prop, case["family"].as_u64().unwrap_or(0) as u8).unwrap();
     if let Some(input) = case["input"].as_str() {
-        // re-tokenise: the recorded token kinds, located in order in the input
         let w: Vec<usize> = case["tokens"].as_array().expect("tokens").iter().map(|x| x.as_u64().unwrap() as usize).collect();
         let mut toks = vec![];
-        let mut pos = 0;
-        for t in &w {
-            let Rec::Lit(l) = &g.terms[*t].rec else { panic!("literal terminal expected") };
-            let at = input[pos..].find(l.as_str()).expect("token text") + pos;
-            toks.push((*t, at, at + l.len()));
-            pos = at + l.len();
+        if let Some(sp) = case["spans"].as_array() {
+            for (t, s) in w.iter().zip(sp.iter()) {
+                toks.push((*t, s[0].as_u64().unwrap() as usize, s[1].as_u64().unwrap() as usize));
+            }
+        } else {
+            // older replay files: locate the recorded token kinds in order in the input
+            let mut pos = 0;
+            for t in &w {
+                let Rec::Lit(l) = &g.terms[*t].rec else { panic!("literal terminal expected") };
+                let at = input[pos..].find(l.as_str()).expect("token text") + pos;
+                toks.push((*t, at, at + l.len()));
+                pos = at + l.len();
+            }
         }
         judge_input(&p, &InputCase { w, input: input.to_string(), toks }, rep, prop);
     }
